@@ -81,11 +81,15 @@ def run(ctx):
     for i, (c_ok, o_ok) in sorted(rfail.items()):
         rep = srvprops.jsonable_case(rcases[i], rres[i][0])
         rep["replay_kind"] = "restart_case"
+        look = any(serialcase.has_inband_lookalike(row) for st in rcases[i]["steps"] if st["op"] == "poll"
+                   for ds in st["tables"].values() for rows in ds.values() for row in rows)
         if not o_ok:
-            look = any(serialcase.has_inband_lookalike(row) for st in rcases[i]["steps"] if st["op"] == "poll"
-                       for ds in st["tables"].values() for rows in ds.values() for row in rows)
             violations.append({"sig": SIG_F10 if look else None,
                                "what": f"restart with unchanged source is not silent (case {i})", **rep})
+        elif not c_ok and look:
+            # the server model reloads what it saved; a look-alike string (possibly in an attribute that
+            # produces no event: cache-only) comes back as another value - finding F10 again
+            violations.append({"sig": SIG_F10, "what": f"a look-alike string is not reloaded identically after a restart (case {i})", **rep})
         elif not c_ok:
             corr.append({"what": f"corr_server_cycle on restart case {i}", **rep})
     # ---- C. cache files across compression switches ----------------------------------------------
